@@ -89,6 +89,15 @@ def gen(seed):
             if name in host['files'] or name in (host.get('flinks') or {}):
                 continue
             host.setdefault('flinks', {})[name] = rng.choice(allfiles)
+    if rng.random() < 0.15:
+        # a source file that is a dangling symbolic link (editor lock file, a checkout whose
+        # target went away): it still is the same-named .py beside its bytecode
+        hosts = [node for rel, node in fssim.walk_tree(tree)]
+        for _ in range(rng.randint(1, 2)):
+            host = rng.choice(hosts)
+            name = rng.choice(['mod.py', 'old.py', 'gone.py', 'z.py', 'test_a.py'])
+            if name not in host['files'] and name not in (host.get('flinks') or {}):
+                host.setdefault('flinks', {})[name] = 'ext/nowhere/' + name
     roots = [('path', 'root')]
     if subdirs and rng.random() < 0.4:
         roots.append((rng.choice(['path', 'test-path']), rng.choice(subdirs)))
